@@ -103,6 +103,17 @@ theorem retainKept_sublist (keep : List Bool) (k : Nat) (l : List Obj) :
     · exact (ih (k + 1)).cons_cons o
     · exact (ih (k + 1)).cons o
 
+theorem drainEvs_metrics (i : Nat) (l : List Obj) : ∀ e ∈ drainEvs i l, e.metricsOK := by
+  induction l with
+  | nil => intro e he; simp [drainEvs] at he
+  | cons o rest ih =>
+    intro e he
+    simp only [drainEvs, List.mem_cons] at he
+    rcases he with rfl | rfl | he
+    · trivial
+    · trivial
+    · exact ih e he
+
 theorem retainEvs_metrics (i : Nat) (keep : List Bool) (k : Nat) (l : List Obj)
     (h : ∀ o ∈ l, o.used) : ∀ e ∈ retainEvs i keep k l, e.metricsOK := by
   induction l generalizing k with
